@@ -22,6 +22,12 @@ FACTS = {
  "fill-retry-skip": ("sub-agent wave 2 (sequences)", "a slice larger than 512 bytes AND a try_fill_bytes error on the 2nd or a later request (at most 3 errors per fill): the failed block stays stale while Ok(()) is returned", "history refinement (R4) with rng_err / rng_partial_err planned for a later request of the fill"),
  "shl-via-rotate": ("sub-agent wave 2 (helpers)", "a non-power-of-two width (24, 40, 96, 136, 192, 320 ...), the gen_range / sample_single path, range.leading_zeros() with a bit set outside BITS-1", "no_return (garbage zone) and 24-bit sweeps / fibre walks (bias)"),
  "add-pairwise-tail-carry": ("sub-agent wave 2 (helpers)", "an unsigned type with odd N >= 3 and a range that straddles the top digit boundary or has exactly 2^((N-1)*digit bits) values", "membership (R1)"),
+ "eintr-retry": ("sub-agent wave 3 (faults and sequences)", "three consecutive RNG errors whose raw_os_error() is exactly 4 (EINTR) or 11 (EAGAIN) inside one fill: the retry loop falls through to Ok(()) with stale or partially written contents", "history refinement (R4) under a burst of consecutive rng_err faults carrying an OS-style error code"),
+ "chunk-tail": ("sub-agent wave 3 (faults and sequences)", "a slice of more than 256 bytes whose size is not a multiple of 256, an error on a full 256-byte request (not the last one) and a successful next request: the remainder request overwrites the recorded error", "history refinement (R4) with a fault placed by delivered-byte count"),
+ "draw-limit": ("sub-agent wave 3 (faults and sequences)", "127 consecutive rejected words in one sampling call on a range that is not a power of two: the 128th word is accepted unconditionally (in range, biased)", "accepted_word_value (R3b) under a stuck entropy source held for >= 127 repeats"),
+ "zone-lt": ("sub-agent wave 3 (minimal bias)", "types wider than 16 bits, gen_range / sample_single path, an odd range size: exactly one RNG word out of 2^BITS is wrongly rejected, so one value (at a pseudo-random position) has 2^lz - 1 accepted words instead of 2^lz", "span probe / fibre walk (block sizes differ by one), 24-bit sweeps"),
+ "pow2mod-shift": ("sub-agent wave 3 (minimal bias)", "a Uniform object on a type of at least 64 bits with 2^63 < range size < 2^64: 2^BITS mod r is computed as 0, sample never rejects, `low` and z-1 other values get one extra accepted word", "preimage_bound (R3) on 64-bit types (q = 1); span probe at offset 0 on wider types"),
+ "wmul-comba": ("sub-agent wave 3 (minimal bias)", "widening_mul rewritten on 64-bit limbs loses a carry when a middle accumulator word is exactly u64::MAX: types wider than 96 bits, range size >= 2^64, a 2^-64 coincidence per product step for random words", "preimage_bound (R3) at 512..8192 bits via extreme words made of whole 00 / FF digits"),
 }
 
 base = "/verif/seeded"
